@@ -100,9 +100,10 @@ def check_c09(idx: Index, tier: str, res: Result) -> None:
     ok = len(stepreads) == 1 and "session_state" in src(stepreads[0].value) and stepreads[0].lineno < order["simulate"]
     res.check("STEP", "the step variable is the pre-advance clock", ok, rs.loc(), rs.qual, norm_stmt(stepreads[0]) if stepreads else "",
               "the step used for simulation and logging is not the clock value read before the advance", key="STEP/run_step/pre-advance")
-    stop = [n for n in walk_no_nested(rs.node) if isinstance(n, ast.If) and isinstance(n.test, ast.Compare) and src(n.test.left) == "step"
-            and "stoptime" in src(n.test.comparators[0])]
-    ok = len(stop) == 1 and isinstance(stop[0].test.ops[0], ast.Gt) and stop[0].lineno < order["simulate"]
+    from ..nf import nf as _nf
+    stop = [n for n in walk_no_nested(rs.node) if isinstance(n, ast.If) and isinstance(n.test, ast.Compare) and len(n.test.ops) == 1
+            and {src(n.test.left), src(n.test.comparators[0])} == {"step", "stoptime"}]
+    ok = len(stop) == 1 and _nf(stop[0].test) == _nf("step > stoptime") and stop[0].lineno < order["simulate"]
     res.check("STEP", "steps are served through the stop time inclusive", ok, rs.loc(stop[0]) if stop else rs.loc(), rs.qual, src(stop[0].test) if stop else "",
               "the stop test is %s: the session must serve the stop time itself and nothing after it" % (src(stop[0].test) if stop else "missing"),
               key="STEP/run_step/stop-test")
